@@ -25,6 +25,7 @@ def run(ctx: Ctx, chk) -> None:
     norm1(ctx, chk, "NORM-1")
     chk.run_rule(stateless1, ctx)
     chk.run_rule(encid1, ctx)
+    chk.run_rule(enc_fresh, ctx)
 
 
 def delim1(ctx: Ctx, chk) -> None:
@@ -321,7 +322,12 @@ def stateless1(ctx: Ctx, chk) -> None:
         bad = None
         for d in f.decorator_names:
             if d.split("(")[0] in CACHE_DECORATORS:
-                bad = (f.node, f"is memoised with @{d}")
+                # memoising per *class / protocol object* (a validator built once per enum) remembers nothing about a
+                # line or a message; memoising on anything else (text, mappings, messages, untyped) does
+                anns = [norm(f.param_annotation(p_)) if f.param_annotation(p_) is not None else "" for p_ in f.params if p_ not in ("self", "cls")]
+                per_type = bool(anns) and all(a_.strip("'\"").startswith(("type[", "Type[")) or a_.strip("'\"") in ("ProtocolType", "type") for a_ in anns)
+                if not per_type:
+                    bad = (f.node, f"is memoised with @{d}")
         is_ctor = f.name == "__init__" and f.cls is not None and f.cls.fq == codec.MESSAGE
         for node in ctx.own_nodes(f):
             if bad:
@@ -373,3 +379,29 @@ def stateless1(ctx: Ctx, chk) -> None:
         chk.ok(rule, f"{pl.fq}::fresh", "every decode constructs a new Message", pl.where, sample=False)
     else:
         chk.refute(rule, f"{pl.fq}::fresh", "post_load does not construct a new Message for every decode", pl.where)
+
+
+def enc_fresh(ctx: Ctx, chk) -> None:
+    rule = "ENC-FRESH-1"
+    chk.rule(rule, "the line Gateway.send hands to the outgoing handler (and so to the transport) is the encoding of the message made in that very call: the 4th argument of the handler dispatch is `self._message_schema.dump(<the message parameter>)` - never a remembered encoding of an earlier state of the (mutable) message object")
+    from ..prov import Canon
+    from . import tables
+
+    send_raw = ctx.func("aiomysensors.gateway.Gateway.send")
+    send = ctx.inl(send_raw)
+    calls = tables.dispatch_calls(ctx, send, tables.DISPATCH_OUT)
+    if len(calls) != 1:
+        raise AnalysisError(f"ENC-FRESH-1: expected one outgoing handler dispatch in Gateway.send, found {len(calls)}")
+    c = calls[0]
+    cn = Canon(ctx.I, send, "")
+    msg = send_raw.positional_params[1]
+    chk.instance(rule)
+    key = f"{send_raw.fq}::encoded-line"
+    if len(c.args) < 4:
+        raise AnalysisError("ENC-FRESH-1: the dispatch does not pass the encoded line as 4th argument")
+    got = cn.canon(c.args[3])
+    want = f"self._message_schema.dump({msg})"
+    if got == want and cn.canon(c.args[1]) == msg:
+        chk.ok(rule, key, f"handler(self, {msg}, <buffer>, {want})", ctx.loc(send_raw, c))
+    else:
+        chk.refute(rule, key, f"the encoded line handed on is `{got[:70]}`, not `{want}` computed in this call: a message object that was sent before and changed since can be written in its old encoding", ctx.loc(send_raw, c))
